@@ -37,6 +37,13 @@ Theorem C15_images_carry_payload : forall (P : Type) l m n (a : atom R P),
 Proof. intros. split; [apply images_payload | reflexivity]. Qed.
 Print Assumptions C15_images_carry_payload.
 
+(* the images of the p-th input atom are the p-th block of l*m*n CONSECUTIVE atoms of the result (`expand` follows the
+   loop nesting translated from the source: with `for ijk ..: for a in S` this statement fails) *)
+Theorem C15_parent_images_consecutive : forall (P : Type) l m n (atoms : list (atom R P)) p d, (p < length atoms)%nat ->
+  firstn (l * m * n) (skipn (p * (l * m * n)) (expand ROps l m n atoms)) = images ROps l m n (nth p atoms d).
+Proof. intros P. exact (@parent_images_consecutive R ROps P). Qed.
+Print Assumptions C15_parent_images_consecutive.
+
 Theorem C15_count : forall (P : Type) l m n (atoms : list (atom R P)),
   length (flat_map (images ROps l m n) atoms) = (length atoms * (l * m * n))%nat.
 Proof. intros. rewrite <- expand_grouped. apply expand_length. Qed.
